@@ -181,3 +181,17 @@ seq_lemma("member_of_listing", Seq(STR), lambda s: Implies(Not(AllNotF0(s)), In(
 
 undecided("everything over schedules: reload/retry after RetryWithNewPacks, readers racing renames into obsolete_packs")
 undecided("_syncronize_pack_names_from_disk_nodes and _obsolete_packs bodies (pack objects are external)")
+
+# ---- reload_pack_names: after a reload the base of the next three-way merge is exactly what was just read from disk
+#      (otherwise packs that others have since removed would be taken for packs this process added, and written back)
+assumed("self.ensure_loaded", result=BOOL, modifies=["self._names", "self._packs_at_load"], raises={"Exception": "unchanged"},
+        note="first use: reads pack-names and sets the merge base to it (not under contract); returns True only then")
+target(P + "reload_pack_names", result=BOOL, locals=dict(first_read=BOOL), modifies=["self._names", "self._packs_at_load"],
+       requires=lambda c: Not(c.g.names_locked),
+       ensures={"the_merge_base_is_what_was_read": lambda c: If(
+                    truthy(c.first_read), lift(c.calls("RepositoryPackCollection._diff_pack_names") == 0),      # first load: ensure_loaded did it
+                    And(lift(c.calls("RepositoryPackCollection._diff_pack_names") == 1), disk_set_is_image(c, c.self._packs_at_load))),
+                "memory_resynchronised": lambda c: Or(truthy(c.first_read), lift(c.calls("self._syncronize_pack_names_from_disk_nodes") == 1))},
+       raises={"Exception": True},
+       canary=lambda c: lift(c.calls("RepositoryPackCollection._diff_pack_names") == 0),
+       equivalent_mutants={r"retnone|return bool\(": "the 'something changed' answer only decides whether the caller retries"})
